@@ -136,11 +136,174 @@ def _refusal(stmts, consts):
     c = _self_call(core[0], "send_response")
     if c is not None and len(c.args) == 1 and not c.keywords and isinstance(c.args[0], ast.Attribute) and c.args[0].attr == "UNAUTHORIZED":
         return "send401"
-    c = _self_call(core[0], "_send_authentication_error_tlv_response")
-    if c is not None and len(c.args) == 1 and not c.keywords:
-        seq = _const_byte(c.args[0], consts)
+    # a call of another method of the class: classified by what the callee DOES, not by its name
+    st = core[0]
+    if (isinstance(st, ast.Expr) and isinstance(st.value, ast.Call) and isinstance(st.value.func, ast.Attribute)
+            and isinstance(st.value.func.value, ast.Name) and st.value.func.value.id == "self"):
+        seq = _auth_error_seq(st.value, consts)
         if seq is not None:
             return ("admin", seq)
+    return None
+
+
+# ---- what a refusal helper does ------------------------------------------------------------------
+# Context of the class under extraction (set by extract()): its methods and its class-level string constants.
+_CTX: Dict[str, Dict] = {"methods": {}, "class_strs": {}}
+TLV_SEQUENCE_NUM, TLV_ERROR_CODE, TLV_ERR_AUTHENTICATION = b"\x06", b"\x07", b"\x02"
+PAIRING_TLV_TYPE = "application/pairing+tlv8"
+
+
+def _absval(node, env, consts):
+    """Abstract value of an expression: ("const", bytes|str) | ("tlv", [absval..]) | ("unknown", text)."""
+    if isinstance(node, ast.Constant) and isinstance(node.value, (bytes, str)):
+        return ("const", node.value)
+    if isinstance(node, ast.Name) and node.id in env:
+        return env[node.id]
+    if isinstance(node, ast.Attribute) and isinstance(node.value, ast.Name):
+        if node.value.id in ("self", "cls") and node.attr in _CTX["class_strs"]:
+            return ("const", _CTX["class_strs"][node.attr])
+        v = consts.get(node.value.id, {}).get(node.attr)
+        if isinstance(v, (bytes, str)):
+            return ("const", v)
+    if (isinstance(node, ast.Call) and isinstance(node.func, ast.Attribute) and node.func.attr == "encode"
+            and isinstance(node.func.value, ast.Name) and node.func.value.id == "tlv" and not node.keywords
+            and not any(isinstance(a, ast.Starred) for a in node.args)):
+        return ("tlv", [_absval(a, env, consts) for a in node.args])
+    return ("unknown", _short(node))
+
+
+def _bind(fn, call, env, consts):
+    """parameter name -> abstract value of the argument (positional, keyword, constant default); None if not bindable"""
+    a = fn.args
+    if a.vararg or a.kwarg or a.posonlyargs or any(isinstance(x, ast.Starred) for x in call.args):
+        return None
+    names = [x.arg for x in a.args][1:]  # without self
+    if len(call.args) > len(names):
+        return None
+    out = {n: _absval(v, env, consts) for n, v in zip(names, call.args)}
+    for kw in call.keywords:
+        if kw.arg is None or kw.arg not in names + [x.arg for x in a.kwonlyargs] or kw.arg in out:
+            return None
+        out[kw.arg] = _absval(kw.value, env, consts)
+    defaults = dict(zip(names[len(names) - len(a.defaults):], a.defaults)) if a.defaults else {}
+    for x, d in zip(a.kwonlyargs, a.kw_defaults):
+        if d is not None:
+            defaults[x.arg] = d
+    for n in names + [x.arg for x in a.kwonlyargs]:
+        if n not in out:
+            if n not in defaults:
+                return None
+            out[n] = _absval(defaults[n], {}, consts)
+    return out
+
+
+def _summary(call, env, consts, depth=0):
+    """Effects of the statement `self.<m>(args)` on the response object, followed into the class:
+    {"status": name, "headers": [(k, v)], "body": absval} — or None if the callee does anything else
+    than log, assert, bind locals, set status / header / body, or call further such methods."""
+    name = call.func.attr
+    if name == "send_response":
+        if len(call.args) == 1 and not call.keywords and isinstance(call.args[0], ast.Attribute):
+            return {"status": call.args[0].attr}
+        return None
+    if name == "send_header":
+        if len(call.args) == 2 and not call.keywords:
+            return {"headers": [(_absval(call.args[0], env, consts), _absval(call.args[1], env, consts))]}
+        return None
+    if name == "end_response":
+        if len(call.args) == 1 and not call.keywords:
+            return {"body": _absval(call.args[0], env, consts)}
+        return None
+    fn = _CTX["methods"].get(name)
+    if fn is None or depth >= 4 or not isinstance(fn, ast.FunctionDef) or fn.decorator_list:
+        return None
+    inner = _bind(fn, call, env, consts)
+    if inner is None:
+        return None
+    out: Dict = {}
+    for stmt in fn.body:
+        if _is_docstring(stmt) or _is_logger_call(stmt) or _assert_not_none_attr(stmt) is not None:
+            continue
+        if isinstance(stmt, ast.Assign) and len(stmt.targets) == 1 and isinstance(stmt.targets[0], ast.Name):
+            inner[stmt.targets[0].id] = _absval(stmt.value, inner, consts)
+            continue
+        if _bare_return(stmt):
+            break
+        if (isinstance(stmt, ast.Expr) and isinstance(stmt.value, ast.Call) and isinstance(stmt.value.func, ast.Attribute)
+                and isinstance(stmt.value.func.value, ast.Name) and stmt.value.func.value.id == "self"):
+            sub = _summary(stmt.value, inner, consts, depth + 1)
+            if sub is None:
+                return None
+            if "headers" in sub:
+                out["headers"] = out.get("headers", []) + sub["headers"]
+            for k in ("status", "body"):
+                if k in sub:
+                    out[k] = sub[k]
+            continue
+        return None
+    return out
+
+
+def _auth_error_seq(call, consts) -> Optional[int]:
+    """`self.<m>(..)` answers 200 / pairing TLV with (sequence number <seq>, error = authentication) and does
+    nothing else -> seq. First by reading the callee(s); if that is inconclusive (pre-computed tables …), by
+    running the call on a detached handler object of the tree under extraction."""
+    sm = _summary(call, {}, consts)
+    if sm and sm.get("status") == "OK" and sm.get("headers") == [(("const", "Content-Type"), ("const", PAIRING_TLV_TYPE))]:
+        b = sm.get("body")
+        if b and b[0] == "tlv" and len(b[1]) == 4 and all(x[0] == "const" for x in b[1]):
+            t1, v1, t2, v2 = (x[1] for x in b[1])
+            if t1 == TLV_SEQUENCE_NUM and t2 == TLV_ERROR_CODE and v2 == TLV_ERR_AUTHENTICATION and isinstance(v1, bytes) and len(v1) == 1:
+                return v1[0]
+    return _probe_auth_error(call)
+
+
+class _Spy:
+    """stands for the accessory driver / state: records that it was touched at all"""
+
+    def __init__(self, log):
+        object.__setattr__(self, "_log", log)
+
+    def __getattr__(self, name):
+        self._log.append(name)
+        return _Spy(self._log)
+
+    def __setattr__(self, name, value):
+        self._log.append(name)
+
+    def __call__(self, *a, **k):
+        self._log.append("()")
+        return _Spy(self._log)
+
+
+def _probe_auth_error(call) -> Optional[int]:
+    try:
+        import importlib
+
+        if str(REPO) not in sys.path:
+            sys.path.insert(0, str(REPO))
+        mod = importlib.import_module("pyhap.hap_handler")
+        if Path(mod.__file__).resolve() != (REPO / "pyhap" / "hap_handler.py").resolve():
+            return None
+        log: List[str] = []
+        h = mod.HAPServerHandler(_Spy(log), ("extract-probe", 0))
+        del log[:]
+        resp = mod.HAPResponse()
+        h.response = resp
+        before = {k: v for k, v in vars(h).items() if k != "response"}
+        scope = dict(vars(mod), self=h)
+        args = [eval(compile(ast.Expression(a), "<probe>", "eval"), scope) for a in call.args]  # noqa: S307
+        kws = {k.arg: eval(compile(ast.Expression(k.value), "<probe>", "eval"), scope) for k in call.keywords}  # noqa: S307
+        getattr(h, call.func.attr)(*args, **kws)
+        after = {k: v for k, v in vars(h).items() if k != "response"}
+        body = bytes(resp.body or b"")
+        if (not log and before == after and h.response is resp and resp.status_code == 200 and resp.task is None
+                and not resp.shared_key and not getattr(resp, "pairing_changed", False) and not getattr(resp, "pairing_removed", False)
+                and [(str(k), str(v)) for k, v in resp.headers] == [("Content-Type", PAIRING_TLV_TYPE)]
+                and len(body) == 6 and body[:2] == b"\x06\x01" and body[3:] == b"\x07\x01\x02"):
+            return body[2]
+    except Exception:  # noqa: BLE001  (inconclusive: the guard stays unrecognised)
+        return None
     return None
 
 
@@ -657,6 +820,13 @@ def extract() -> Dict:
         if isinstance(s, ast.AnnAssign) and isinstance(s.target, ast.Name) and s.target.id == "HANDLERS":
             handlers_node = s.value
     table = ast.literal_eval(handlers_node)  # fails loudly if HANDLERS stops being a literal
+    _CTX["methods"] = methods
+    _CTX["class_strs"] = {
+        st.targets[0].id: st.value.value
+        for st in cls.body
+        if isinstance(st, ast.Assign) and len(st.targets) == 1 and isinstance(st.targets[0], ast.Name)
+        and isinstance(st.value, ast.Constant) and isinstance(st.value.value, str)
+    }
 
     # which methods (transitively through self.<m>() calls) write self.is_encrypted
     def callees(fn):
@@ -718,6 +888,7 @@ def extract() -> Dict:
                 and isinstance(n.args[1], ast.Constant) and isinstance(n.args[1].value, str) and n.args[1].value in methods}
 
     reach: Dict[str, bool] = {}
+    reach_set: Dict[str, set] = {}
     for name in methods:
         seen, todo, hit = set(), [(name, frozenset())], False
         while todo:
@@ -727,7 +898,6 @@ def extract() -> Dict:
             seen.add((m, inherited))
             if direct[m]:
                 hit = True
-                break
             fn_m = methods[m]
             tabs = tables_in(fn_m) or inherited
             refs = callees(fn_m) | const_getattr(fn_m)
@@ -735,6 +905,18 @@ def extract() -> Dict:
                 refs |= set().union(*(class_tables[t] for t in tabs)) if tabs else all_listed
             todo.extend((r, tabs) for r in refs)
         reach[name] = hit
+        reach_set[name] = {m for m, _ in seen}
+
+    # a writer site is named by PUBLIC things only: the routes whose handler reaches it through the
+    # intra-class call graph (private method names do not appear in the generated table)
+    def origin(rel: str, qual: str, fname: str) -> str:
+        if rel == "hap_handler.py" and qual == cls.name + ".":
+            if fname == "__init__":
+                return "constructor of the request handler"
+            rts = sorted(f"{mth} {pth}" for mth, paths in table.items() for pth, hn in paths.items()
+                         if hn in methods and fname in reach_set.get(hn, ()))
+            return "routes: " + ", ".join(rts) if rts else "request handler, not reachable from a route"
+        return f"outside the request handler ({rel})"
 
     routes = []
     for method, paths in table.items():
@@ -764,10 +946,10 @@ def extract() -> Dict:
             for ch in ast.iter_child_nodes(node):
                 if isinstance(ch, (ast.FunctionDef, ast.AsyncFunctionDef)):
                     for v in _flag_writes_shallow(ch, lits):
-                        writers.append((f"{rel}:{qual + ch.name}", v))
+                        writers.append((origin(rel, qual, ch.name), v))
                         if v != "False":
                             ok, why = _flag_set_last(ch)
-                            order.append((f"{rel}:{qual + ch.name}", ok, why))
+                            order.append((origin(rel, qual, ch.name), ok, why))
                     visit(ch, qual + ch.name + ".")
                 elif isinstance(ch, ast.ClassDef):
                     visit(ch, qual + ch.name + ".")
@@ -776,7 +958,7 @@ def extract() -> Dict:
 
         visit(m, "")
         for v in _flag_writes_toplevel(m, lits):
-            writers.append((f"{rel}:<module>", v))
+            writers.append((f"outside the request handler ({rel}, module level)", v))
     return {"routes": routes, "writers": writers, "order": order}
 
 
@@ -885,7 +1067,8 @@ def render(data: Dict) -> str:
     lines += [
         "]",
         "",
-        "/-- Every assignment to an attribute named `is_encrypted` in pyhap/*.py: (site, assigned value). -/",
+        "/-- Every assignment to an attribute named `is_encrypted` in pyhap/*.py: (where — named by the routes whose",
+        "    handler reaches the assignment, never by a private method name —, assigned value). -/",
         "def verifiedWriters : List (String × String) := [",
     ]
     w = data["writers"]
